@@ -153,6 +153,8 @@ def cases(draw):
                     'stop_time': draw(st.sampled_from(['absent', 'valid', 'old', 'int', 'str']))},
             'end': draw(st.sampled_from(['stop', 'stop', 'stop', 'abort', 'failed_start'])),
             'slow_stop': draw(st.sampled_from([None, None, 2.5, 9.5])),
+            # a restart that fails before the blocks are initialised (must leave the storage alone)
+            'fail2': draw(st.sampled_from([None, 'start', 'service_task', 'cancel'])),
             'restarts': restarts}
 
 
@@ -469,6 +471,41 @@ def run2(case, storage_content, now2, watch):
     return out
 
 
+def run2_failed(case, storage_content, now2, mode):
+    """a restart whose start-up fails before any block is initialised; -> storage afterwards"""
+    out = {}
+
+    async def scenario(loop):
+        harness.reset()
+        circuit = edzed.get_circuit()
+        t0 = loop.time()
+        build(case, [], lambda: loop.time() - t0, failing_start=(mode == 'start'))
+        if mode == 'service_task':
+            def broken():
+                raise RuntimeError('sensor not connected')
+            edzed.ValuePoll('svc', func=broken, interval=1, initdef=0)
+        storage = harness.DeepCopyDict(storage_content)
+        circuit.set_persistent_data(storage)
+        task = asyncio.create_task(circuit.run_forever())
+        await asyncio.sleep(0)
+        if mode == 'cancel':
+            task.cancel()       # delivered at the first suspension point of the simulation task
+        try:
+            await asyncio.wait_for(asyncio.shield(task), 100)
+        except BaseException as err:
+            out['result'] = type(err).__name__
+        out['done'] = task.done()
+        out['initialized'] = sorted(b.name for b in circuit.getblocks(edzed.SBlock)
+                                    if b.is_initialized() and b.name not in ('rec', 'svc'))
+        out['storage'] = storage.snapshot()
+        if not task.done():
+            task.cancel()
+
+    harness.run_case(scenario, wall_start=EPOCH + _dt.timedelta(microseconds=round(now2 * 1e6)),
+                     read_latency_us=1)
+    return out
+
+
 def timer_of(kind, state):
     """expiry stamp of an FSM-like state, else None"""
     if kind in ('timer', 'inputexp', 'fsm') and isinstance(state, (list, tuple)) and len(state) == 3:
@@ -498,6 +535,7 @@ def execute(case):
     snaps = r1['snaps']
     evals = 1
     both_sides = set()
+    failed_restart_done = failed_restart_checked = False
     exp_decided = False
     chosen = range(len(snaps)) if case.get('all_snaps') else sorted({r['snap'] % len(snaps) for r in case['restarts']})
     downs_for = {}
@@ -555,6 +593,21 @@ def execute(case):
             r2 = run2(case, stor, now2, watch)
             ctrl = run2(case, None, now2, {})
             evals += 2
+            if case.get('fail2') and not failed_restart_done:
+                failed_restart_done = True
+                rf = run2_failed(case, stor, now2, case['fail2'])
+                evals += 1
+                watched = set(keys.values()) | {k for k in stor if k.startswith('edzed-')}
+                after = {k: v for k, v in rf['storage'].items() if k in watched}
+                before = {k: v for k, v in stor.items() if k in watched}
+                if not rf.get('done'):
+                    res.fail('C06.failed_start_hangs', f"restart with a failing start-up ({case['fail2']}) does not end")
+                elif not rf['initialized'] and not same_state(after, before):
+                    res.fail('C06.written_after_failed_start',
+                             f"restart from snapshot {si} ({snap['tag']}) failing before the initialisation "
+                             f"({case['fail2']}): storage {after!r}, before {before!r}")
+                elif not rf['initialized']:
+                    failed_restart_checked = True
             tag = f"restart from snapshot {si} ({snap['tag']}) after {down:.3f} s: "
             if 'init_error' in r2 or 'init_error' in ctrl:
                 res.fail('C06.restart_failed', tag + str(r2.get('init_error') or ctrl.get('init_error')))
@@ -606,6 +659,8 @@ def execute(case):
         res.classes.append('downtime on both sides of a remaining timer')
     if exp_decided:
         res.classes.append('expiration decided')
+    if failed_restart_checked:
+        res.classes.append('restart failing before the initialisation')
     if info.get('fatal'):
         res.classes.append('handler error in run 1')
     if info.get('events_during_cleanup'):
